@@ -112,7 +112,7 @@ def handle : Handler
       let some aux := decAux aux | return bad
       let some lam := lam.toRat? | return bad
       return encRes (Fac.circleSegment k theta r center normal xaxis arc aux lam)
-  | "f_three", [k, tol, x0, x1, x2, radius, thS, arcS, thL, arcL, fc, aW, lamW, aC, lamC] =>
+  | "f_three", [k, tol, x0, x1, x2, radius, thS, arcS, thL, arcL, aW, lamW] =>
       some <| Id.run do
       let some k := decConsts k | return bad
       let some tol := tol.toRat? | return bad
@@ -124,12 +124,9 @@ def handle : Handler
       let some arcS := decArc arcS | return bad
       let some thL := thL.toRat? | return bad
       let some arcL := decArc arcL | return bad
-      let some fc := fc.toBool? | return bad
       let some aW := decAux aW | return bad
       let some lamW := lamW.toRat? | return bad
-      let some aC := decAux aC | return bad
-      let some lamC := lamC.toRat? | return bad
-      return encRes (Fac.threePoints k tol x0 x1 x2 radius thS arcS thL arcL fc aW lamW aC lamC)
+      return encRes (Fac.threePoints k tol x0 x1 x2 radius thS arcS thL arcL aW lamW)
   | "f_three_data", [tol, x0, x1, x2] => some <| Id.run do
       let some tol := tol.toRat? | return bad
       let some x0 := x0.toRats? | return bad
